@@ -24,7 +24,7 @@ for d in sorted(glob.glob(os.path.join(V, "seeded", "C??-r?"))):
                    "property were, asked for a different function, mechanism and clause)" % sid[-1],
          "confirmed_by_me": {
              "how": "tools/eval_seed.sh <scratch worktree>: (1) unedited test suite with the change; (2) seed_demo.py with the change; (3) seed_demo.py on the original "
-                    "(git stash); (4) all 20 checks against the worktree via PMV_REPO; patch.diff re-based on /repo HEAD; tools/seed_matrix.py re-applies it to a fresh "
+                    "(patch reverse-applied with git apply -R); (4) all 20 checks against the worktree via PMV_REPO; patch.diff re-based on /repo HEAD; tools/seed_matrix.py re-applies it to a fresh "
                     "scratch worktree of /repo HEAD and re-runs all 20 checks",
              "tests_with_change": "250 passed, 1 failed (tests/test_jupiterMoons.py::TestJupiterMoons::test_is_phenomena) - identical to the baseline",
              "demo_with_change": "fails (last line: %s)" % tail("demo_output_with_change.txt"),
@@ -33,8 +33,10 @@ for d in sorted(glob.glob(os.path.join(V, "seeded", "C??-r?"))):
     json.dump(m, open(mp, "w"), indent=1)
 bm_p = os.path.join(V, "benign", "matrix.json")
 bm = json.load(open(bm_p)) if os.path.exists(bm_p) else {}
-for d in sorted(glob.glob(os.path.join(V, "benign", "C??-b[23]"))):
+for d in sorted(glob.glob(os.path.join(V, "benign", "C??-b[234]"))):
     name = os.path.basename(d)
+    if not os.path.exists(os.path.join(d, "agent_meta.json")):
+        continue                      # sets written by hand keep their own meta.json
     am = json.load(open(os.path.join(d, "agent_meta.json")))
     res = bm.get(name)
     m = {"id": "benign-" + name, "anchored_in_property": name.split("-")[0], "kind": "behaviour-preserving structural refactoring (false-alarm probe, round %s: helpers split off, table-driven dispatch, loops rewritten, keyword arguments, guard clauses, validation / dispatch / formatting code reorganised)" % name[-1], "edits": am.get("edits"), "files": am.get("files"),
